@@ -27,6 +27,8 @@ EndClauses(s, r) ==
   \* was out of reach and an error was due instead of an angle
   If(r.outcome = "Returned" /\ ~r.reaches, "C02.ReturnedForUnreachableTarget") \cup
   If(r.outcome # "Returned" /\ ~r.storedSame, "C02.FailedZeroChangedStoredZero") \cup
+  \* the error raised by a failed search reports the search that was made (trials, last error, last elevation)
+  If(r.outcome = "ZeroErr" /\ ~r.errorTruthful, "C02.ErrorMisreportsTheSearch") \cup
   If(r.outcome = "Returned" /\ ~r.storedIsResult, "C02.StoredZeroNotTheResult")
 
 TraceInit == l = 1 /\ fails = {} /\ z = Idle
